@@ -12,7 +12,7 @@ def _trivial(impl):
     return impl.startswith("served") or impl.startswith("ok")
 
 CONFIG = {
-    "modules": ["GoPlugin.Props.C12", "GoPlugin.Instance.C12"],
+    "modules": ["GoPlugin.Props.C12", "GoPlugin.Props.Hygiene", "GoPlugin.Instance.C12"],
     "scenario": "C12",
     "signature": _sig,
     "trivial": _trivial,
